@@ -142,7 +142,9 @@ Definition finish (s : sst) : outcome :=
 
 Definition run (cap : N) (fs : list frame) : sst := fold_left (step cap) fs init.
 
-Definition yielded (s : sst) : list str := rev (out_rev s).
+(* [rev'] is the linear-time reversal (the standard [rev] is quadratic; bodies
+   of tens of thousands of frames are evaluated); BodyCapProofs.yielded_rev *)
+Definition yielded (s : sst) : list str := rev' (out_rev s).
 
 (* StreamingBody::new(body, cap).into_stream(), pulled to its end: the chunks
    yielded, in order, and how the stream ended. *)
